@@ -6,7 +6,7 @@
 From Coq Require Import List NArith ZArith Bool Lia Arith.
 From Coq Require Import ZifyBool ZifyNat ZifyN.
 From SNT Require Import Base.Outcome Base.Sweep Base.Report Image.KDTree Image.KDTreeProofs Image.Octree
-     Image.OctreeProofs.
+     Image.OctreeProofs Image.OctreePath.
 Import ListNotations.
 
 Arguments N.add : simpl never.
@@ -87,17 +87,6 @@ Proof.
   destruct c1 as [[r1 g1] b1], c2 as [[r2 g2] b2]. rewrite !state_n_chan.
   unfold rgb_ok in H1, H2. rewrite !chan_8_zero by lia. reflexivity.
 Qed.
-
-(* the packed u32 form of the code agrees with the lane-wise form (sampled sanity
-   check, all values of one lane with the other two at their extremes) *)
-Example path_packed_ok :
-  forallb (fun r => forallb (fun o =>
-     let eq := list_eqb Nat.eqb in
-     eq (path_packed (r, o, 255 - o)%N) (path_of (r, o, 255 - o)%N) &&
-     eq (path_packed (o, r, 255 - o)%N) (path_of (o, r, 255 - o)%N) &&
-     eq (path_packed (255 - o, o, r)%N) (path_of (255 - o, o, r)%N))
-     [0; 1; 85; 127; 128; 170; 254; 255]%N) (nrange 256) = true.
-Proof. vm_compute. reflexivity. Qed.
 
 (* ---------- insertion-only trees ---------- *)
 
@@ -251,7 +240,7 @@ Lemma oc_insert_full t c :
     (forall path', length path' = 8%nat -> path' <> path_of c -> oc_lookup path' t' = oc_lookup path' t) /\
     lsum nleaves (o_children t') = (lsum nleaves (o_children t) + fresh (oc_lookup (path_of c) t))%nat.
 Proof.
-  intros [Hlen Hall Hinfo] Hc. unfold oc_insert, path_of.
+  intros [Hlen Hall Hinfo] Hc. unfold oc_insert. rewrite (path_packed_eq c Hc). unfold path_of.
   destruct (path_n_ok 8 c Hc) as [Hl Hf].
   destruct (path_n 8 c) as [|k rest]; [discriminate|].
   inversion Hf as [|? ? Hk Hrest]; subst. cbn [length] in Hl. injection Hl as Hl.
